@@ -15,6 +15,7 @@ seconds, Decs raw 18-decimal integers; owners / denoms / validators are small in
   withdraw <id>                                              DeleteAllMaturedSyntheticLocks; UnlockMaturedLock(id)
   endblock                                                   DeleteAllMaturedSyntheticLocks; WithdrawMaturedLocks
   advance <dt>                                               block time += dt
+  exportimport                                               ExportGenesis; superfluid store wiped; InitGenesis
   epoch <denom>:<osmo backing>:<raw Dec of share supply | full-range liquidity>:<l|c> …   SuperfluidKeeper.AfterEpochStartBeginBlock
                                                              (l = classic pool shares, c = concentrated full-range shares)
 
@@ -22,6 +23,7 @@ result line:  <ok [id] | err:<class> | panic> st=[d.v=stake,…] cn=[id>d.v,…]
               lk=[id:owner:denom:amount:single:dur:end,…] ac=[d.v:gauge,…] m=[denom:mult,…] sup=<supply> off=<offset> rep=<supply with offset>
 (every state-changing call runs in a cache context that is written back only on success) -/
 import OsmoVerif.Model.Superfluid
+import OsmoVerif.Model.SuperfluidGenesis
 namespace OsmoVerif.Superfluid
 
 structure DrvState where
@@ -140,6 +142,11 @@ def stepSuperfluid (d : DrvState) (op : String) (args : List String) : DrvState 
     match id.toNat? with
     | some id => finishOp d (.withdraw id)
     | none => (d, "bad-op")
+  -- real ExportGenesis, superfluid store wiped, real InitGenesis (Model/SuperfluidGenesis.lean)
+  | "exportimport", [] =>
+    match exportImport ((d.denoms.foldl max 0) + 1) d.s with
+    | none => (d, "panic " ++ showState d)
+    | some s' => let d' := { d with s := s' }; (d', "ok " ++ showState d')
   | "endblock", [] => finishOp d .endBlock
   | "advance", [dt] =>
     match dt.toInt? with
